@@ -192,6 +192,18 @@ class Engine:
             if desc in ('str', 'callable'):
                 st.assume(z3.Not(run_isnone(v.term)))
             return v
+        if desc == 'optrlist':
+            v = SeqV('R', fresh(name, RSeq), True)      # an optional list: None is a distinguished value of the sort
+            v.maybe_none = True
+            return v
+        if desc == 'indices':
+            # np.where(...) tuple, np.argpartition(...) slice, or a list of ints
+            k = run.path.choice(2)
+            seq = SeqV('I', fresh(name, ISeq), k == 1)
+            return TupleV([seq]) if k == 0 else seq
+        if desc == 'list:pv':
+            from .lib import PVArr
+            return st.alloc(SymListO(fresh(name + '_len', Int), fresh(name + '_elems', PVArr), None), fresh=False)
         if desc == 'scaler':
             return st.alloc(Obj('StandardScaler', {'state': OpaqueV(fresh(name, Opaque), 'scaler')}), fresh=False)
         if desc.startswith('str:{'):
@@ -246,6 +258,21 @@ class Engine:
                     vk[f] = kind
                 return st.alloc(MapO(fresh(name + '_keys', ASeq), cols, vk, record_cls=k), fresh=False)
             raise Unsupported('map kind ' + k)
+        if desc.startswith('like:'):
+            # an object of the same class (and variant) as the one at this path from self, e.g. like:self.lp
+            v = run.mat_env
+            for part in desc[5:].split('.'):
+                v = v[part] if isinstance(v, dict) else st.heap[v.loc].fields[part]
+            o = st.heap[v.loc]
+            forced = dict(getattr(run, 'forced_cls', {}))
+            if 'regression' in o.fields and isinstance(o.fields['regression'], StrV):
+                forced[name + '_regression'] = o.fields['regression'].s
+            saved = getattr(run, 'forced_cls', {})
+            run.forced_cls = forced
+            try:
+                return self.new_symbolic_object(run, o.cls, name, st)
+            finally:
+                run.forced_cls = saved
         if desc.startswith('obj:'):
             k = desc[4:]
             if k.startswith('{'):
@@ -358,7 +385,23 @@ class Engine:
         return specmod.class_fields(self.repo, cls)
 
     def loop_invariant(self, run, where):
-        return None
+        """Explicit invariant of the loop at `where` (a line) from the sidecar spec, keyed by loop ordinal."""
+        fr = run.frames[-1]
+        if fr.fi is None:
+            return None
+        sp = self.spec_for(fr.fi.qual, fr.self_cls)
+        if sp is None or not sp.loops:
+            return None
+        import ast as _ast
+        line = int(where.split()[-1])
+        fors = sorted(n.lineno for n in _ast.walk(fr.fi.node) if isinstance(n, (_ast.For, _ast.ListComp, _ast.DictComp,
+                                                                                 _ast.GeneratorExp)))
+        if line not in fors:
+            return None
+        clauses = sp.loops.get(fors.index(line))
+        if not clauses:
+            return None
+        return LoopInv(self, run, fr, [specmod.Clause(c) if not isinstance(c, specmod.Clause) else c for c in clauses], where)
 
     def loop_raise(self, run, exc, st1, B, A, where):
         run.pending_raises = getattr(run, 'pending_raises', []) + [(exc, st1, where)]
@@ -416,6 +459,7 @@ class Engine:
             d = sp.params.get(nm)
             if d is None:
                 raise Unsupported('no kind declared for parameter %s of %s' % (nm, fi.qual))
+            run.mat_env = env
             env[nm] = self.materialise(run, d, nm)
         label = run.label
         ch = getattr(run, 'choices', [])
@@ -433,6 +477,7 @@ class Engine:
             ob = run.emit('cover', z3.BoolVal(True), 'requires satisfiable')
             ob.expect_sat = True
         entry = st.clone()
+        run.n_mat = len(run.path.taken)
         roots = dict(env)
         st.written = set()
         st.fresh = set()
@@ -462,6 +507,8 @@ class Engine:
                 run.st = saved
             run.emit('noraise.cond', z3.Not(cnd), 'a call that returns normally was not to be rejected',
                      meta={'clause': 'not (' + sp.raises_iff + ')'})
+        if sp.functional and sp.varies and all(d == 0 for d in run.path.taken[run.n_mat:]):
+            self._relational(run, fi, sp, cls, env, entry)
         env2 = dict(env)
         env2['result'] = result
         for k, c in enumerate(C.expand(run, sp.ensures, env, cls)):
@@ -471,6 +518,105 @@ class Engine:
                 g = z3.BoolVal(False)
             run.emit('post', g, c.name or ('#%d' % k), props=c.props or sp.props, meta={'clause': c.text})
         C.frame_obligations(run, entry, descs, roots, sp.props)
+
+    # ------------------------------------------------------------------------------ non-interference
+    def vary_learned(self, run, st, ref):
+        """Replace the learned (non-const) state of an object by independent fresh values."""
+        o = st.heap[ref.loc]
+        decls = specmod.class_fields(self.repo, o.cls)
+        no = o
+        for f, v in o.fields.items():
+            d = decls.get(f, '')
+            if d.endswith(' const') or f in ('arms', 'rng'):
+                continue
+            if isinstance(v, Ref):
+                t = st.heap[v.loc]
+                if isinstance(t, MapO):
+                    nm = MapO(fresh('var_keys', ASeq), {}, t.vkinds, t.record_cls)
+                    nm.shared_rng = getattr(t, 'shared_rng', None)
+                    for c, arr in t.cols.items():
+                        nm.cols[c] = fresh('var_' + (c or 'v'), arr.sort())
+                    no = no.set(f, st.alloc(nm, fresh=False))
+                elif isinstance(t, Obj) and t.cls in specmod.CLASSES and t.cls not in ('_NumpyRNG', 'np.Generator'):
+                    self.vary_learned(run, st, v)
+                continue
+            if hasattr(v, 'term'):
+                no = no.set(f, C._fresh_like(v, 'var_' + f))
+            elif isinstance(v, NoneV) and d:
+                no = no.set(f, self.materialise(run, d, 'var_' + f, allow_split=False, st=st))
+        st.heap[ref.loc] = no
+
+    def _relational(self, run, fi, sp, cls, env, entry):
+        """Self-composition: two executions that agree on everything except the learned state of the objects in
+        `varies` must return the same value (the result is a function of the read set)."""
+        stA, stB = entry.clone(), entry.clone()
+        saved = run.st
+        run.st = stB
+        try:
+            for expr in sp.varies:
+                v = C.eval_expr_in(run, expr, env, fi=fi, dyn_cls=cls)
+                self.vary_learned(run, stB, v)
+            # fields named in the read set keep their values (they are inputs of the function, not learned residue)
+            for r in (sp.reads or []):
+                m = re.match(r'^([A-Za-z_]+)\.([A-Za-z_]+)\??$', r)
+                if m and m.group(1) in sp.varies:
+                    ov = C.eval_expr_in(run, m.group(1), env, fi=fi, dyn_cls=cls)
+                    if m.group(2) not in stA.heap[ov.loc].fields:
+                        continue
+                    stB.heap[ov.loc] = stB.heap[ov.loc].set(m.group(2), stA.heap[ov.loc].fields[m.group(2)])
+            for c in C.expand(run, sp.requires, env, cls):
+                stB.assume(C.eval_clause(run, c, env, fi=fi, dyn_cls=cls))
+        finally:
+            run.st = saved
+        base = len(entry.pc)
+
+        def body():
+            try:
+                run.exec_block(fi.body())
+                return NONE
+            except ReturnSignal as r:
+                return r.value
+        n0 = len(run.obligs)
+        saved_env = run.frames[-1].env
+        run.frames[-1].env = dict(env)
+        try:
+            endsA = run.explore(stA, body)
+            endsB = run.explore(stB, body)
+        finally:
+            run.frames[-1].env = saved_env
+            del run.obligs[n0:]
+        k = 0
+        from .engine import feasible
+        for (ka, ra, sta, pa, _) in endsA:
+            for (kb, rb, stb, pb, _) in endsB:
+                hyps = list(sta.pc) + list(stb.pc[base:])
+                if pa.taken != pb.taken and not feasible(hyps, 600):
+                    continue        # the two executions cannot take these different paths together
+                if ka == 'ok' and kb == 'ok':
+                    goal = self.same_value(ra, sta, rb, stb)
+                else:
+                    goal = z3.BoolVal(ka == kb)
+                ob = Obligation('%s:functional:%d' % (run.label, k), run.fname, 'functional', hyps, goal, props=sp.props,
+                                meta={'clause': 'the result does not depend on the learned state of ' + ', '.join(sp.varies)})
+                ob.path = []
+                run.obligs.append(ob)
+                k += 1
+
+    def same_value(self, a, sta, b, stb):
+        if isinstance(a, NoneV) and isinstance(b, NoneV):
+            return z3.BoolVal(True)
+        if type(a) is type(b) and hasattr(a, 'term'):
+            x, y = a.term, b.term
+            if isinstance(a, Num) and x.sort() != y.sort():
+                x, y = a.real(), b.real()
+            return x == y
+        if isinstance(a, Ref) and isinstance(b, Ref):
+            oa, ob = sta.heap[a.loc], stb.heap[b.loc]
+            if isinstance(oa, MapO) and isinstance(ob, MapO) and set(oa.cols) == set(ob.cols):
+                w = smt.bound('asame', Arm)
+                eqs = [oa.cols[c][w] == ob.cols[c][w] for c in oa.cols]
+                return z3.And(oa.keys == ob.keys, z3.ForAll([w], z3.Implies(T.amem(oa.keys, w), z3.And(*eqs))))
+        return z3.BoolVal(False)
 
     def _exceptional_exit(self, run, fi, sp, cls, env, entry, roots, e):
         if sp.raises is None:
@@ -510,6 +656,45 @@ class Engine:
             self._exceptional_exit(run, fi, sp, cls, env, entry, roots, exc)
         finally:
             run.st = saved
+
+
+class LoopInv:
+    """Invariant of a summarised loop: assumed at the start of the symbolic iteration, proved initially and after
+    the body (obligations loop.inv.init / loop.inv.preserve), assumed after the loop."""
+
+    def __init__(self, eng, run, frame, clauses, where):
+        self.eng, self.frame, self.clauses, self.where = eng, frame, clauses, where
+
+    def _eval(self, run, st, env, clause):
+        saved_st, saved_env = run.st, run.frames[-1].env
+        run.st = st
+        run.frames[-1].env = env
+        try:
+            cl = C.expand(run, [clause], env, self.frame.self_cls)
+            return [(c, C.eval_clause(run, c, env, fi=self.frame.fi, dyn_cls=self.frame.self_cls)) for c in cl]
+        finally:
+            run.st, run.frames[-1].env = saved_st, saved_env
+
+    def init(self, run, st0, env0):
+        for clause in self.clauses:
+            for c, g in self._eval(run, st0, env0, clause):
+                ob = Obligation('%s:loop.inv.init:%s@%s' % (run.label, c.name or 'inv', self.where), run.fname,
+                                'loop.inv.init', list(st0.pc), g, props=run.cur_props, meta={'clause': c.text})
+                ob.path = list(run.path.taken)
+                run.obligs.append(ob)
+
+    def assume_at(self, run, sti, envi=None):
+        for clause in self.clauses:
+            for c, g in self._eval(run, sti, envi if envi is not None else run.frames[-1].env, clause):
+                sti.assume(g)
+
+    def preserve(self, run, st1, env1):
+        for clause in self.clauses:
+            for c, g in self._eval(run, st1, env1, clause):
+                ob = Obligation('%s:loop.inv.preserve:%s@%s' % (run.label, c.name or 'inv', self.where), run.fname,
+                                'loop.inv.preserve', list(st1.pc), g, props=run.cur_props, meta={'clause': c.text})
+                ob.path = list(run.path.taken)
+                run.obligs.append(ob)
 
 
 run_isnone = smt.F('is_none', Opaque, Bool)
